@@ -4,5 +4,4 @@ CONSTANTS
   DefNaNCompare = FALSE
   DefSwapNs = FALSE
 INVARIANT Report
-INVARIANT CountersInv
 CHECK_DEADLOCK FALSE
